@@ -196,10 +196,27 @@ func vfGenRegex(t *rapid.T, names vfkit.NameSet) string {
 	default: // anything with an escaped (non-LDH) octet
 		re = `\\[0-9][0-9][0-9]`
 	}
-	// the line syntax: no '#', no newline, no leading/trailing blank; keep lower case
+	// the line syntax: no '#', no newline, no leading/trailing blank
 	re = strings.NewReplacer("#", `\x23`, "\n", `\n`, "\r", `\r`).Replace(re)
 	if strings.ToLower(re) != re || strings.TrimSpace(re) != re || !vfASCII(re) {
 		return `^never-matches-[0-9]$`
+	}
+	// An expression is taken as written (names are lower-cased, expressions are not): one with an upper-case letter
+	// matches no name, unless it carries its own (?i). Each entry stands for itself - flags of one entry are not
+	// flags of its neighbours.
+	switch rapid.IntRange(0, 9).Draw(t, "regexCase") {
+	case 0:
+		re = "(?i)" + re
+	case 1:
+		re = "(?i)" + strings.ToUpper(re[:1]) + re[1:]
+	case 2, 3:
+		b := []byte(re)
+		for i := range b {
+			if 'a' <= b[i] && b[i] <= 'z' && (i == 0 || b[i-1] != '\\') && rapid.IntRange(0, 3).Draw(t, "upper") == 0 {
+				b[i] -= 'a' - 'A'
+			}
+		}
+		re = string(b)
 	}
 	if _, err := regexp.Compile(re); err != nil {
 		return `^never-matches-[0-9]$`
